@@ -354,6 +354,17 @@ def runCase (xs : List Sx) : String :=
         | none => "bad-case container-shape"
       | _ => "ok"
     | _, _ => "bad-case parse"
+  | [.atom "contread", b] =>
+    -- can every definition of the container be read at all (hypothesis of the tightness theorem)
+    match bytes? b with
+    | some bs =>
+      match fromSlice false containerTy bs with
+      | .ok v =>
+        match containerOfVal v with
+        | some c => "readable=" ++ toString c.readable
+        | none => "bad-case container-shape"
+      | _ => "bad-case container-bytes"
+    | none => "bad-case parse"
   | [.atom "sdec", cb, eb] =>
     -- the schema-only reader of the specification (`sdec`) on a container and an encoding
     match bytes? cb, bytes? eb with
